@@ -6,17 +6,24 @@
 (* through SPECIFICATION and INVARIANTS.                                   *)
 (*                                                                         *)
 (*  SpecLists   every list over a node alphabet, nesting depth 0..2        *)
-(*              invariants: InvRoundTrip, InvPrintInMode, InvWellFormed    *)
+(*              invariants: InvRoundTrip (both printers), InvPrintInMode,  *)
+(*              InvWellFormed, InvRoundTripD; InvTextRoundTrip (the whole  *)
+(*              way through Render and Lex; its own, smaller cfg)          *)
 (*  SpecCalls   every call f(args) with up to MaxArgs arguments over a     *)
-(*              value / keyword alphabet (wrong types, unknown keywords,   *)
-(*              duplicates, too many, nested lists with errors)            *)
-(*              invariants: InvCallTotal, InvNormalForm, InvBindingIsFunction,*)
-(*              InvOkMeansEachParameterOnce, InvRenderReads                *)
+(*              value / keyword alphabet (wrong types, near misses,        *)
+(*              unknown keywords, duplicates, too many, nested lists with  *)
+(*              errors), in every list mode                                *)
+(*              invariants: InvCallTotal, InvNormalForm, InvModeDiscipline,*)
+(*              InvBindingIsFunction, InvOkMeansEachParameterOnce,         *)
+(*              InvPositionalFirst, InvRenderReads, InvFormat              *)
 (*  SpecText    every text over a character alphabet up to TextLen         *)
-(*              invariants: InvLexTotal, InvRelex, InvReadRender           *)
-(*  SpecNums    a sample of scaled values (all 2^16 fractions x integer    *)
-(*              parts incl. the boundaries) and integers                   *)
-(*              invariants: InvScanPrint                                   *)
+(*              invariants: InvLexTotal, InvRelex, InvReadRender,          *)
+(*              InvCommentsAreBlank, InvFormatText                         *)
+(*  SpecNums    every 16-bit fraction x the integer parts IntParts x both  *)
+(*              signs, and integers up to +-(2^31-1)                       *)
+(*              invariants: InvScanPrint, InvUnitsAsInTeX                  *)
+(*  SpecStr     every string over awkward characters up to TextLen         *)
+(*              invariant: InvStrRoundTrip (three escape styles)           *)
 (* REPLAY_*.cfg add an invariant that prints one replay case per state     *)
 (* (binding R).                                                            *)
 (***************************************************************************)
@@ -204,9 +211,11 @@ SpecNums == InitNums /\ [][NextNums]_x
 
 InvScanPrint ==
   /\ TokenRoundTrip([t |-> "dim", n |-> Num, o |-> 0, s |-> <<>>], 0)
-  /\ \A o \in 1..3 : TokenRoundTrip([t |-> "inf", n |-> Num, o |-> o, s |-> <<>>], 0)
-  /\ TokenRoundTrip([t |-> "int", n |-> Num, o |-> 0, s |-> <<>>], 0)
-  /\ TokenRoundTrip([t |-> "int", n |-> (IF Num >= 0 THEN MaxInt - Num ELSE -MaxInt - Num), o |-> 0, s |-> <<>>], 0)
+  \* (the order of infinity and the size of the integer rotate with the value: every order and both
+  \* integer ranges meet every 16-bit fraction pattern many times over)
+  /\ TokenRoundTrip([t |-> "inf", n |-> Num, o |-> 1 + (x.v % 3), s |-> <<>>], 0)
+  /\ TokenRoundTrip([t |-> "int", n |-> (IF x.v % 2 = 0 THEN Num ELSE IF Num >= 0 THEN MaxInt - Num ELSE -MaxInt - Num),
+                     o |-> 0, s |-> <<>>], 0)
   /\ ScanRatio(PrintScaled(Num)) = [ok |-> TRUE, n |-> Num]
   \* print_scaled never needs more than five digits
   /\ Len(FracDigits(x.v % Unity)) <= 5
